@@ -270,7 +270,8 @@ func formatInto(sb *strings.Builder, format string, args []string) (int, error) 
 			j := 0
 			for ; j < max && i+j < len(format); j++ {
 				c := format[i+j]
-				if (c >= '0' && c <= '9') ||
+				if (c >= '0' && c <= '7') ||
+					(hex && c >= '8' && c <= '9') ||
 					(hex && c >= 'a' && c <= 'f') ||
 					(hex && c >= 'A' && c <= 'F') {
 					// valid octal or hex char
